@@ -230,16 +230,22 @@ class Dual:
     def of(x):
         return x if isinstance(x, Dual) else Dual(x, 0)
     def __add__(self, o):
+        if isinstance(o, Germ):
+            return NotImplemented
         o = Dual.of(o)
         return Dual(self.a + o.a, self.b + o.b)
     __radd__ = __add__
     def __neg__(self):
         return Dual(-self.a, -self.b)
     def __sub__(self, o):
+        if isinstance(o, Germ):
+            return NotImplemented
         return self + (-Dual.of(o))
     def __rsub__(self, o):
         return Dual.of(o) + (-self)
     def __mul__(self, o):
+        if isinstance(o, Germ):
+            return NotImplemented
         o = Dual.of(o)
         return Dual(self.a * o.a, self.a * o.b + self.b * o.a)
     __rmul__ = __mul__
@@ -269,6 +275,206 @@ class Dual:
         return '%d+%d*eps' % (self.a, self.b)
 
 
+def _c_add(a, b):
+    r = a + b
+    return r if isinstance(r, Dual) else r % _P61
+
+
+def _c_mul(a, b):
+    r = a * b
+    return r if isinstance(r, Dual) else r % _P61
+
+
+def _c_zero(a):
+    return (a.a == 0 and a.b == 0) if isinstance(a, Dual) else a % _P61 == 0
+
+
+def _c_inv(a):
+    if isinstance(a, Dual):
+        return a.inv()
+    if a % _P61 == 0:
+        raise OutOfFragment('germ: division by zero coefficient')
+    return pow(a % _P61, _P61 - 2, _P61)
+
+
+_GERM_INF = 10 ** 9
+
+
+class Germ:
+    """eta^k (c[0] + c[1] eta + ...) + O(eta^prec): a value known as a truncated Laurent series in a formal
+    infinitesimal eta, with coefficients in GF(p) (or GF(p)[eps]/(eps^2), class Dual).  The positive numeric literals
+    not larger than FIELD['eta'] (the code's epsilon guards, 1e-6 .. 1e-10) are read as c * eta, so that
+    x / (|x| + 1e-8) at x = 0 + eps v is (v / 1e-8) eps eta^-1 and sin(dt 1e-8 / 2) is (dt 1e-8 / 2) eta - ...: the limit
+    eta -> 0 of the result is the behaviour of the program for a vanishing guard, exactly."""
+    __slots__ = ('k', 'c', 'prec')
+    TERMS = 5
+
+    def __init__(self, k, c, prec=_GERM_INF):
+        c = list(c)
+        while c and _c_zero(c[0]):
+            c.pop(0)
+            k += 1
+        if prec < _GERM_INF:
+            c = c[:max(prec - k, 0)]
+        else:
+            while c and _c_zero(c[-1]):
+                c.pop()
+            if len(c) > Germ.TERMS:
+                c, prec = c[:Germ.TERMS], k + Germ.TERMS
+        if not c and prec >= _GERM_INF:
+            k = 0
+        self.k, self.c, self.prec = k, tuple(c), prec
+
+    @staticmethod
+    def of(x):
+        return x if isinstance(x, Germ) else Germ(0, (x,))
+
+    def plain(self):
+        """The ordinary value if the series is exactly one (no eta), else self."""
+        if self.prec >= _GERM_INF:
+            if not self.c:
+                return 0
+            if self.k == 0 and len(self.c) == 1:
+                return self.c[0]
+        return self
+
+    def coeff(self, order):
+        i = order - self.k
+        if order >= self.prec:
+            raise OutOfFragment('germ: coefficient of eta^%d is beyond the truncation order' % order)
+        return self.c[i] if 0 <= i < len(self.c) else 0
+
+    def __add__(self, o):
+        o = Germ.of(o)
+        prec = min(self.prec, o.prec)
+        k = min(self.k if self.c else o.k, o.k if o.c else self.k)
+        hi = max(self.k + len(self.c), o.k + len(o.c))
+        if prec < _GERM_INF:
+            hi = min(hi, prec)
+        return Germ(k, [_c_add(self._at(j), o._at(j)) for j in range(k, hi)], prec).plain()
+    __radd__ = __add__
+
+    def _at(self, order):
+        i = order - self.k
+        return self.c[i] if 0 <= i < len(self.c) else 0
+
+    def __neg__(self):
+        return Germ(self.k, [-x if isinstance(x, Dual) else (-x) % _P61 for x in self.c], self.prec)
+
+    def __sub__(self, o):
+        return self + (-Germ.of(o))
+
+    def __rsub__(self, o):
+        return Germ.of(o) + (-self)
+
+    def __mul__(self, o):
+        o = Germ.of(o)
+        if not self.c and self.prec >= _GERM_INF or not o.c and o.prec >= _GERM_INF:
+            return 0
+        prec = min(self.k + o.prec if o.prec < _GERM_INF else _GERM_INF, o.k + self.prec if self.prec < _GERM_INF else _GERM_INF)
+        k = self.k + o.k
+        n = len(self.c) + len(o.c) - 1
+        out = [0] * max(n, 0)
+        for i, a in enumerate(self.c):
+            for j, b in enumerate(o.c):
+                out[i + j] = _c_add(out[i + j], _c_mul(a, b))
+        return Germ(k, out, prec).plain()
+    __rmul__ = __mul__
+
+    def __mod__(self, m):
+        return self
+
+    def inv(self):
+        if not self.c:
+            raise OutOfFragment('germ: division by a value that vanishes to the truncation order')
+        n = len(self.c) if self.prec < _GERM_INF else Germ.TERMS
+        i0 = _c_inv(self.c[0])
+        # (c0 (1 + u))^-1 = c0^-1 (1 - u + u^2 - ...), u = sum_{j>=1} (c_j / c0) eta^j
+        u = [_c_mul(x, i0) for x in self.c[1:]]
+        r = [1] + [0] * (n - 1)
+        for m in range(1, n):
+            acc = 0
+            for j in range(1, m + 1):
+                if j - 1 < len(u):
+                    acc = _c_add(acc, _c_mul(u[j - 1], r[m - j]))
+            r[m] = -acc if isinstance(acc, Dual) else (-acc) % _P61
+        exact = self.prec >= _GERM_INF and len(self.c) == 1
+        return Germ(-self.k, [_c_mul(i0, x) for x in r], _GERM_INF if exact else -self.k + n).plain()
+
+    def __pow__(self, e, mod=None):
+        r, base, e = 1, self, int(e)
+        while e:
+            if e & 1:
+                r = r * base
+            base = base * base
+            e >>= 1
+        return r
+
+    def __eq__(self, o):
+        if isinstance(o, (int, Dual)):
+            o = Germ.of(o)
+        if not isinstance(o, Germ):
+            return False
+        return self.k == o.k and self.c == o.c and self.prec == o.prec or (not self.c and not o.c and self.prec == o.prec)
+
+    def __ne__(self, o):
+        return not self.__eq__(o)
+
+    def __hash__(self):
+        return hash((self.k, self.c, self.prec))
+
+    def __repr__(self):
+        return 'eta^%d%r+O(%s)' % (self.k, self.c, self.prec if self.prec < _GERM_INF else 'inf')
+
+    def standard(self):
+        """The limit eta -> 0 (the value must be finite and known to order 0)."""
+        if self.c and self.k < 0:
+            raise OutOfFragment('germ: the value diverges as the guard vanishes (order eta^%d)' % self.k)
+        if self.prec <= 0:
+            raise OutOfFragment('germ: the value is not known to order eta^0')
+        return self._at(0)
+
+
+def _germ_trig(name, g):
+    """sin / cos of an INFINITESIMAL germ (order >= 1) by its Taylor series."""
+    if g.c and g.k < 1:
+        raise OutOfFragment('germ: %s of a non-infinitesimal series' % name)
+    x2 = g * g
+    term = g if name == 'sin' else 1
+    tot = term
+    n = 1 if name == 'sin' else 0
+    for _ in range(Germ.TERMS):
+        n += 2
+        term = -(term * x2) if isinstance(term * x2, (Germ, Dual)) else (-(term * x2)) % _P61
+        term = term * _c_inv(n * (n - 1) % _P61)
+        if isinstance(term, Germ) and not term.c:
+            break
+        if not isinstance(term, Germ) and _c_zero(term):
+            break
+        tot = tot + term
+    return tot
+
+
+def _germ_sqrt(g):
+    if not g.c or g.k % 2:
+        raise OutOfFragment('germ: square root of a series of odd or unknown order')
+    c0 = g.c[0]
+    r0 = field_sqrt(Rat._f(c0)).fv
+    if isinstance(r0, Germ) or Rat._f(r0).n == Poly():
+        raise OutOfFragment('germ: square root of a vanishing leading coefficient')
+    # sqrt(c0 (1 + u)) = sqrt(c0) (1 + u/2 - u^2/8 + u^3/16 - 5u^4/128)
+    u = Germ(g.k, g.c, g.prec) * Germ(-g.k, (_c_inv(c0),)) - 1
+    half = _c_inv(2)
+    coefs = [half, (-_c_inv(8)) % _P61, _c_inv(16), (-5 * _c_inv(128)) % _P61]
+    tot, pw = 1, 1
+    for cf in coefs:
+        pw = pw * u
+        if not isinstance(pw, Germ) and _c_zero(pw):
+            break
+        tot = tot + pw * cf
+    return Germ(g.k // 2, (r0,)) * tot
+
+
 def dual_parts(v):
     """(value, derivative) images of an AVN value in field mode."""
     fv = Rat.lift(v).fv
@@ -287,6 +493,7 @@ def field_mode(seed=0, decide=None, bool_default=None):
     FIELD['seed'] = seed
     FIELD['decide'] = decide
     FIELD['dual'] = {}
+    FIELD['eta'] = None
     FIELD['trig'] = {}
 
 
@@ -312,10 +519,18 @@ def field_sqrt(x):
     if not FIELD.get('sqrt_axiom'):
         return uf('sqrt', x)
     p = FIELD['p']
+    if isinstance(x.fv, Germ):
+        return Rat._f(_germ_sqrt(x.fv))
     if isinstance(x.fv, Dual):
         a, b = x.fv.a, x.fv.b
         r = pow(a, (p + 1) // 4, p)
         if r * r % p != a:
+            if FIELD['sqrt_axiom'] == 'soft':
+                # no root at this point: an arbitrary (but fixed) value and derivative -- see the plain case below
+                FIELD['soft_hits'] = FIELD.get('soft_hits', 0) + 1
+                h = int.from_bytes(hashlib.blake2b(('%d|sqrtdual|%d|%d|%d' % (FIELD['seed'], a, b, FIELD.get('soft_salt', 0))).encode(),
+                                                   digest_size=16).digest(), 'big')
+                return Rat._f(Dual(2 + h % (p - 3), 2 + (h >> 64) % (p - 3)))
             raise NonResidue()
         r = min(r, p - r)
         if r == 0:
@@ -334,6 +549,8 @@ def field_sqrt(x):
 
 def _finv(a):
     p = FIELD['p']
+    if isinstance(a, Germ):
+        return a.inv()
     if isinstance(a, Dual):
         if a.b == 0:
             a = a.a
@@ -369,6 +586,8 @@ def _fval_name(name):
 def _fval_frac(c):
     p = FIELD['p']
     c = Fraction(c)
+    if FIELD.get('eta') and 0 < abs(c) <= FIELD['eta']:
+        return Germ(1, ((c.numerator % p) * pow(c.denominator % p, p - 2, p) % p,))
     return (c.numerator % p) * _finv(c.denominator) % p
 
 
@@ -406,6 +625,8 @@ class Rat:
             self.fv = None
             self.cv = None
     def _set_f(self, v):
+        if isinstance(v, Germ):
+            v = v.plain()
         if isinstance(v, Dual):
             v = v if v.b else v.a
         self.fv = v % FIELD['p']
@@ -633,6 +854,15 @@ def atom_key(name, args, keys=None):
     return a
 
 def uf(name, *args):
+    if FIELD['on'] and FIELD.get('eta'):
+        dep = [a for a in args if isinstance(a, Rat) and isinstance(a.fv, Germ)]
+        if dep:
+            if name in ('sin', 'cos') and len(args) == 1:
+                return Rat._f(_germ_trig(name, args[0].fv))
+            if name == 'sqrt' and len(args) == 1:
+                return Rat._f(_germ_sqrt(args[0].fv))
+            if name not in PREDICATE_KINDS:
+                raise OutOfFragment('germ mode: uninterpreted %s of a value that depends on the vanishing guard' % name)
     if FIELD['on'] and FIELD.get('dual'):
         dep = [a for a in args if isinstance(a, Rat) and isinstance(a.fv, Dual)]
         if dep:
